@@ -98,7 +98,9 @@ func (j *jsonSubProto) Unpack(m erpc.Message) error {
 	// read transfer pipe
 	xferPipe := gjson.Get(s, "xferPipe")
 	for _, r := range xferPipe.Array() {
-		m.XferPipe().Append(byte(r.Int()))
+		if err = m.XferPipe().Append(byte(r.Int())); err != nil {
+			return err
+		}
 	}
 
 	// read body
